@@ -201,6 +201,16 @@ def run(chk: Check):
     chk.extra["memoised_functions"] = n_memo
     chk.note("unit-table subscripts (VDI map, VHD/VHDX BAT, QCOW2 L1) are not armed for over-read: an aligned over-read of < 8 KiB leaves the "
              "last table entry only for allocation units smaller than the buffer, which these formats do not produce")
+    # a QCOW2 snapshot view is a copy of a live stream: it must not start with the live stream's buffer (shared with C07)
+    from . import C07
+
+    sub = Check("C07", chk.tier, chk.world, "other", quiet=True)
+    C07.qcow2_snapshot(sub)
+    for i in sub.instances:
+        if "snapshot-view" in i.name:
+            i.name = "C07:" + i.name
+            chk.instances.append(i)
+    chk.require("K-PATH", 3)
     chk.require("K-PURE", 9)
     chk.require("K-TYPESTATE", 20)
     chk.require("K-WHO", 14)
